@@ -179,12 +179,20 @@ func readCases(sw *ast.SwitchStmt, depth int) (cases []lcase, def []ast.Stmt, ha
 	return
 }
 
+// accVar is the name of the accumulator variable of the function being read (`expr` in parser.go today; a renaming is harmless)
+var accVar = "expr"
+
 // `expr := p.X()`
 func operandDecl(s ast.Stmt) string {
 	as, ok := s.(*ast.AssignStmt)
-	if !ok || as.Tok != token.DEFINE || len(as.Lhs) != 1 || len(as.Rhs) != 1 || !isIdent(as.Lhs[0], "expr") {
+	if !ok || as.Tok != token.DEFINE || len(as.Lhs) != 1 || len(as.Rhs) != 1 {
 		return ""
 	}
+	id, ok := as.Lhs[0].(*ast.Ident)
+	if !ok || pCall(as.Rhs[0]) == "" {
+		return ""
+	}
+	accVar = id.Name
 	return pCall(as.Rhs[0])
 }
 
@@ -221,7 +229,7 @@ func returnsIdent(stmts []ast.Stmt, name string) bool {
 // the generic tail `&ast.BinaryExpr{Left: expr, Op: <op>, Right: p.R()}`; returns node kind, op expression, right callee
 func binaryTail(e ast.Expr) (string, ast.Expr, string, bool) {
 	k, fs := nodeLit(e)
-	if k == "" || len(fs) != 3 || !isIdent(fs["Left"], "expr") || fs["Op"] == nil || fs["Right"] == nil {
+	if k == "" || len(fs) != 3 || !isIdent(fs["Left"], accVar) || fs["Op"] == nil || fs["Right"] == nil {
 		return "", nil, "", false
 	}
 	r := pCall(fs["Right"])
@@ -240,7 +248,7 @@ func readLadderFn(fd *ast.FuncDecl) lfn {
 		rest := b[1:]
 		// loop, conditional form
 		if len(rest) == 2 {
-			if fs, ok := rest[0].(*ast.ForStmt); ok && fs.Init == nil && fs.Post == nil && fs.Cond != nil && returnsIdent(rest[1:], "expr") {
+			if fs, ok := rest[0].(*ast.ForStmt); ok && fs.Init == nil && fs.Post == nil && fs.Cond != nil && returnsIdent(rest[1:], accVar) {
 				be, ok := fs.Cond.(*ast.BinaryExpr)
 				if !ok || be.Op != token.EQL || !isTokenKind(be.X) {
 					return bad("loop condition")
@@ -250,7 +258,7 @@ func readLadderFn(fd *ast.FuncDecl) lfn {
 					return bad("loop body")
 				}
 				as, ok := body[1].(*ast.AssignStmt)
-				if !ok || as.Tok != token.ASSIGN || len(as.Lhs) != 1 || !isIdent(as.Lhs[0], "expr") || len(as.Rhs) != 1 {
+				if !ok || as.Tok != token.ASSIGN || len(as.Lhs) != 1 || !isIdent(as.Lhs[0], accVar) || len(as.Rhs) != 1 {
 					return bad("loop assignment")
 				}
 				k, op, r, ok := binaryTail(as.Rhs[0])
@@ -274,11 +282,11 @@ func readLadderFn(fd *ast.FuncDecl) lfn {
 					return bad("switch-loop switch")
 				}
 				cases, def, hasDef := readCases(sw, 1)
-				if !hasDef || !returnsIdent(def, "expr") {
+				if !hasDef || !returnsIdent(def, accVar) {
 					return bad("switch-loop default")
 				}
 				as, ok := body[3].(*ast.AssignStmt)
-				if !ok || as.Tok != token.ASSIGN || len(as.Lhs) != 1 || !isIdent(as.Lhs[0], "expr") || len(as.Rhs) != 1 {
+				if !ok || as.Tok != token.ASSIGN || len(as.Lhs) != 1 || !isIdent(as.Lhs[0], accVar) || len(as.Rhs) != 1 {
 					return bad("switch-loop assignment")
 				}
 				k, op, r, ok := binaryTail(as.Rhs[0])
@@ -296,7 +304,7 @@ func readLadderFn(fd *ast.FuncDecl) lfn {
 				return bad("once switch")
 			}
 			cases, def, hasDef := readCases(sw, 0)
-			if !hasDef || !returnsIdent(def, "expr") {
+			if !hasDef || !returnsIdent(def, accVar) {
 				return bad("once default")
 			}
 			r, ok := rest[3].(*ast.ReturnStmt)
